@@ -173,6 +173,29 @@ func runLive(sp infoSpec, npeers int, steps []liveStep) (fail string, labels map
 			if len(rs) > 1 {
 				r.Close()
 			}
+		case "join":
+			// a peer turns up while the metadata is half assembled, and says what it has
+			nr, err := x.Connect(sim.Caps{Fast: s.P%2 == 0, Extended: true}, len(rs)+1, false)
+			if err != nil {
+				return "connect: " + err.Error() + describe(), labels, hist
+			}
+			nr.SendExt(map[string]uint8{"ut_metadata": 7}, nil, &size, "")
+			rs = append(rs, nr)
+			sim.Settle()
+			if s.Index%2 == 0 {
+				nr.Send(ref.Msg{Kind: ref.KHave, Index: uint32(s.Index)})
+			} else {
+				nr.Send(ref.Msg{Kind: ref.KBitfield, Data: []byte{0xff, 0x80}})
+			}
+			if tor.VerifInfoBitmapCount(t) > 0 {
+				labels["peer-joins-while-metadata-half-assembled"] = true
+			}
+			// what we tell a peer about metadata we do not have (verified) yet: nothing
+			for _, m := range nr.All() {
+				if m.Kind == ref.KExtended && m.X == ref.XHandshake && m.HS != nil && m.HS.MetadataSize != nil && !t.InfoComplete() {
+					return fmt.Sprintf("a peer that connected while the metadata was incomplete was told metadata_size=%d: the unverified buffer is passed on as if it were the torrent's metadata", *m.HS.MetadataSize) + describe(), labels, hist
+				}
+			}
 		}
 		sim.Settle()
 		if f := invariant("after " + s.String()); f != "" {
@@ -266,7 +289,7 @@ func TestC12Live(t *testing.T) {
 		npeers := rapid.IntRange(1, 4).Draw(rt, "peers")
 		var steps []liveStep
 		for i, n := 0, rapid.IntRange(0, 14).Draw(rt, "nsteps"); i < n; i++ {
-			s := liveStep{Kind: rapid.SampledFrom([]string{"forged", "forged", "authentic", "authentic", "burst", "hold", "release", "sleep", "leave"}).Draw(rt, "kind"),
+			s := liveStep{Kind: rapid.SampledFrom([]string{"forged", "forged", "authentic", "authentic", "burst", "hold", "release", "sleep", "leave", "join", "join"}).Draw(rt, "kind"),
 				P: rapid.IntRange(0, 3).Draw(rt, "p"), Index: rapid.IntRange(0, 7).Draw(rt, "index")}
 			if s.Kind == "forged" {
 				s.How = rapid.SampledFrom([]string{"flip", "other-index", "short", "garbage"}).Draw(rt, "how")
